@@ -564,7 +564,8 @@ def spec_eval(lines):
     """Evaluate Spec commands (stateless) in the model driver, sharded."""
     if not lines:
         return []
-    return [o for outs in runner.run_model(runner.shard(lines, NCPU)) for o in outs]
+    shards = [["#mode tableapi"] + sh for sh in runner.shard(lines, NCPU)]
+    return [o for outs in runner.run_model(shards) for o in outs[1:]]
 
 
 # ------------------------------------------------------------------ the direct oracle
